@@ -30,7 +30,11 @@ AllKinds == << "nil", "bool", "int", "int_neg", "int8", "int64", "uint", "uint8"
                \* parameter is a defined type over HelperContext; a typed nil partial feeder; a helper that renders a template
                \* with its own helper context; a slice shared with a function that shortens it
                "nilptr_htmler", "nilptr_interfaceable", "nilptr_pathable", "slice_nilptr_pathable", "struct_promotes_nil_ptr", "struct_promotes_nil_iface",
-               "func_array3", "func_myhc", "nil_feeder", "func_rerender", "ptr_slice_shared", "func_shrink_shared" >>
+               "func_array3", "func_myhc", "nil_feeder", "func_rerender", "ptr_slice_shared", "func_shrink_shared",
+               \* functions whose (omitted) last parameter implements the helper-context interface without being HelperContext:
+               \* a pointer to it, a struct embedding it, a larger interface; containers whose element / key type is a non-empty
+               \* interface; two struct types that print the same name with the field Name at index 3 and at index 0
+               "func_ptrhc", "func_embhc", "func_bigifacehc", "slice_stringer1", "map_str_error", "map_stringer_int", "twin_big", "twin_small" >>
 \* a smaller set for the third variable of three-variable forms
 ValueKinds == << "nil", "int", "str", "float64", "bool", "slice_any", "map_str_any", "struct", "ptr_struct", "func0" >>
 KindSet(s) == {s[i] : i \in 1..Len(s)}
@@ -132,6 +136,11 @@ FormsOf(fam) ==
            [n |-> "iso:selfhash", vars |-> 0, src |-> C(<<"let", " ", "h", " ", "=", " ", "LBR", "k", ":", " ", "1", "RBR">>) \o C(<<"h", "[", "QUOT", "k", "QUOT", "]", " ", "=", " ", "h">>) \o E(<<"h">>) \o E(<<"toJSON", "(", "h", ")">>)],
            [n |-> "iso:mutual", vars |-> 0, src |-> C(<<"let", " ", "x", " ", "=", " ", "[", "1", "]">>) \o C(<<"let", " ", "y", " ", "=", " ", "[", "x", "]">>) \o C(<<"x", "[", "0", "]", " ", "=", " ", "y">>) \o E(<<"y">>) \o E(<<"len", "(", "x", ")">>)],
            [n |-> "iso:selfarrjson", vars |-> 0, src |-> C(<<"let", " ", "x", " ", "=", " ", "[", "1", "]">>) \o C(<<"x", "[", "0", "]", " ", "=", " ", "x">>) \o E(<<"toJSON", "(", "x", ")">>) \o E(<<"inspect", "(", "x", ")">>)],
+           \* ... and then handed to something that PRINTS them (string +, an error message naming the value, inspect, an index)
+           [n |-> "iso:selfcat", vars |-> 0, src |-> C(<<"let", " ", "x", " ", "=", " ", "[", "1", "]">>) \o C(<<"x", "[", "0", "]", " ", "=", " ", "x">>) \o E(<<"QUOT", "s", "QUOT", " ", "+", " ", "x">>)],
+           [n |-> "iso:selfinspect", vars |-> 0, src |-> C(<<"let", " ", "x", " ", "=", " ", "[", "1", "]">>) \o C(<<"x", "[", "0", "]", " ", "=", " ", "x">>) \o E(<<"inspect", "(", "x", ")">>)],
+           [n |-> "iso:selfidx", vars |-> 0, src |-> C(<<"let", " ", "x", " ", "=", " ", "[", "1", "]">>) \o C(<<"x", "[", "0", "]", " ", "=", " ", "x">>) \o E(<<"x", "[", "x", "]">>)],
+           [n |-> "iso:selfarg", vars |-> 0, src |-> C(<<"let", " ", "x", " ", "=", " ", "[", "1", "]">>) \o C(<<"x", "[", "0", "]", " ", "=", " ", "x">>) \o E(<<"capitalize", "(", "x", ")">>)],
            [n |-> "forval", vars |-> 1, src |-> E(<<"for", " ", "(", "v", ")", " ", "in", " ", "[", "a", "]", " ", "LBR", " ", "%>", "<%=", " ", "v", " ", "%>", "<%", " ", "RBR">>)] }
 
 \* ---- family "nested": expression forms composed to depth two, outer(a := (inner(a, c)), b); explored by simulation
